@@ -374,7 +374,11 @@ class AsyncFIXConnection:
 
                 tm = time.time()
 
-                if self._connection_state == ConnectionState.ACTIVE:
+                if self._connection_state in (
+                    ConnectionState.ACTIVE,
+                    # logged on and waiting for a resend: the peer is probed all the same
+                    ConnectionState.RESENDREQ_AWAITING,
+                ):
                     if tm - self._message_last_time > self._heartbeat_period - 1:
                         if not self._test_req_id:
                             await self.send_test_req()
